@@ -279,7 +279,9 @@ type recWitness struct {
 	updates []string // "logID\x00first line of the checkpoint"
 }
 
-func (w *recWitness) GetLatestCheckpoint(context.Context, string) ([]byte, error) { return w.latest, nil }
+func (w *recWitness) GetLatestCheckpoint(context.Context, string) ([]byte, error) {
+	return w.latest, nil
+}
 func (w *recWitness) Update(_ context.Context, id string, _ uint64, cp []byte, _ [][]byte) ([]byte, error) {
 	w.mu.Lock()
 	defer w.mu.Unlock()
